@@ -266,11 +266,23 @@ func (h *H) recResult(res *OpResult, v any) {
 //go:norace
 func (h *H) doOp(t *simrt.Task, res *OpResult, hd *Handle, op Op) {
 	p := hd.P()
+	// every third operation aimed at the provider goes through the provider's own root scope
+	// (what Resolve[Scope](provider) hands out): same instances, same errors, its children are
+	// scopes of the provider like any other
+	if hd.Kind == HProvider && h.rootScope != nil && res.GID%3 == 0 {
+		switch op.Kind {
+		case OpResolve, OpResolveGroup, OpCreateScope:
+			p = h.rootScope
+			res.ViaRoot = true
+		}
+	}
 	switch op.Kind {
 	case OpResolve:
 		var v any
 		var err error
-		if op.Id.Key != "" {
+		if n, ok := intKey(op.Id.Key); ok {
+			v, err = p.GetKeyed(op.Id.T.RT(), n)
+		} else if op.Id.Key != "" {
 			v, err = p.GetKeyed(op.Id.T.RT(), op.Id.Key)
 		} else {
 			v, err = p.Get(op.Id.T.RT())
@@ -380,6 +392,19 @@ func (h *H) doOp(t *simrt.Task, res *OpResult, hd *Handle, op Op) {
 			res.Aborted = "no-ctx"
 		}
 	}
+}
+
+// intKey: probe keys of the form "int:<n>" stand for the int n (nothing is ever registered
+// under an int key, so such an identity must not resolve).
+func intKey(k string) (int, bool) {
+	if len(k) > 4 && k[:4] == "int:" {
+		n := 0
+		for _, c := range k[4:] {
+			n = n*10 + int(c-'0')
+		}
+		return n, true
+	}
+	return 0, false
 }
 
 // ctxDerivesFrom: is d's creation context hd's creation context or derived from it?
